@@ -172,13 +172,15 @@ Definition g_t (a : grec) : Z := snd a.
    (window) some record made before position hi is 2^15 or more ahead of it, or
    (cull)   after a feedback build that followed a, a record of a higher number
             arrived at least 500 ms after a (before position hi). *)
+(* (vm_compute is call-by-value: "if" instead of && / || keeps the scans lazy) *)
 Definition window_excused (G : list grec) (hi U : Z) : bool :=
-  existsb (fun r => (g_i r <? hi) && (g_u r - U >=? 32768)) G.
+  existsb (fun r => if g_u r - U >=? 32768 then g_i r <? hi else false) G.
 Definition cull_excused (G : list grec) (Bs : list Z) (hi : Z) (a : grec) : bool :=
-  existsb (fun r => (g_i a <? g_i r) && (g_i r <? hi) && (g_u r >? g_u a) && (g_t r >=? g_t a + 500000) &&
-                    existsb (fun pb => (g_i a <? pb) && (pb <? g_i r)) Bs) G.
+  existsb (fun r => if g_i a <? g_i r then if g_i r <? hi then if g_u r >? g_u a then
+                    if g_t r >=? g_t a + 500000 then existsb (fun pb => (g_i a <? pb) && (pb <? g_i r)) Bs
+                    else false else false else false else false) G.
 Definition excused (G : list grec) (Bs : list Z) (hi : Z) (a : grec) : bool :=
-  window_excused G hi (g_u a) || cull_excused G Bs hi a.
+  if window_excused G hi (g_u a) then true else cull_excused G Bs hi a.
 
 (* within 125 us, modulo the 24-bit reference-time range 2^24 * 64 ms *)
 Definition Mref : Z := 1073741824000.
@@ -191,7 +193,8 @@ Fixpoint match_first (G : list grec) (Bs : list Z) (earlier cands : list grec) (
   match cands with
   | [] => false
   | a :: tl =>
-      (near T (g_t a) && forallb (excused G Bs (g_i a)) earlier) || match_first G Bs (earlier ++ [a]) tl T
+      if (if near T (g_t a) then forallb (excused G Bs (g_i a)) earlier else false) then true
+      else match_first G Bs (earlier ++ [a]) tl T
   end.
 
 Definition arrivals_of (G : list grec) (U : Z) : list grec := rev (filter (fun r => g_u r =? U) G).  (* oldest first *)
@@ -201,8 +204,9 @@ Definition sem_code (G : list grec) (Bs : list Z) (pos UB : Z) (p : pkt) (recv :
   if existsb (fun e => match arrivals_of G (fst e) with [] => true | _ => false end) recv then 6%nat
   else if negb (forallb (fun e => match_first G Bs [] (arrivals_of G (fst e)) (snd e)) recv) then 7%nat
   else if negb (forallb (fun r =>
-            if (UB <=? g_u r) && (g_u r <? UB + p_count p) && negb (existsb (fun e => fst e =? g_u r) recv)
-            then excused G Bs pos r else true) G) then 8%nat
+            if UB <=? g_u r then if g_u r <? UB + p_count p then
+              if existsb (fun e => fst e =? g_u r) recv then true else excused G Bs pos r
+            else true else true) G) then 8%nat
   else 0%nat.
 
 Definition first_nonzero (a b : nat) : nat := match a with O => b | _ => a end.
@@ -239,9 +243,9 @@ Definition maxU_of (G : list grec) : Z := fold_left (fun m r => Z.max m (g_u r))
 Definition all_new_reported (G : list grec) (prevB pos : Z) (reported : list (Z * Z)) : bool :=
   forallb (fun r =>
     if g_i r <=? prevB then true
-    else if existsb (fun r' => (g_u r' =? g_u r) && (g_i r' <? g_i r)) G then true
-    else if window_excused G pos (g_u r) then true
-    else existsb (fun e => fst e =? g_u r) reported) G.
+    else if existsb (fun e => fst e =? g_u r) reported then true
+    else if existsb (fun r' => if g_u r' =? g_u r then g_i r' <? g_i r else false) G then true
+    else window_excused G pos (g_u r)) G.
 
 Record ost := mkOst {
   o_unw : option Z; o_G : list grec; o_Bs : list Z; o_prevB : Z; o_fb : Z; o_media : Z }.
